@@ -36,18 +36,20 @@ def main():
     thorough = ctx.tier == "thorough"
     ctx.rule = ("TLC enumerates every sequence of 3 distinct assertions (4 in the model-checking configs) over the university "
                 "model (2 persons, 3 companies, a CEO role) and the /verif family model (transitive + inverse + skipped "
-                "hierarchy level), with Closure(asserted) after each step; each sequence is replayed on real instances in one of "
+                "hierarchy level) and the geo model (a transitive property without inverse and a sub-property of it, instances of a subclass "
+                "of the declaring class), with Closure(asserted) after each step; each sequence is replayed on real instances in one of "
                 "4 write forms (append/add, extend/update, assignment to an empty field, insert); after every step "
                 "SymbolGraph().relations() and every managed field are compared with the closure. Non-trivial = the closure "
                 "after the last step is larger than the asserted set; distinct by (model, sequence, form).")
     ctx.run_tlc("Ontology", "Ontology_mc_univ.cfg", expect="ok")
     ctx.run_tlc("Ontology", "Ontology_mc_family.cfg", expect="ok")
+    ctx.run_tlc("Ontology", "Ontology_mc_geo.cfg", expect="ok")
     for sw in ("TransOnlyAsserted", "TransOutOnly", "NoInverseOfInferred", "DirectSuperOnly"):
         ctx.run_tlc("Ontology", f"Ontology_sw_{sw}.cfg", expect="violation")
     rnd = random.Random(ctx.seed)
     cases = []
     totals = {}
-    for model, nq in (("univ", 4000), ("family", 4000)):
+    for model, nq in (("univ", 4000), ("family", 4000), ("geo", 2000)):
         r = ctx.run_tlc("Ontology", f"Ontology_gen_{model}.cfg", expect="ok")
         hs = [h for h in r.json_lines() if isinstance(h, list)]
         totals[model] = len(hs)
@@ -63,7 +65,7 @@ def main():
     ctx.cov["behaviours_in_bound"] = totals
     results = replay("onto", cases)
     ctx.replayed = len(cases)
-    traces = {"univ": [], "family": []}
+    traces = {"univ": [], "family": [], "geo": []}
     for i, (c, r) in enumerate(zip(cases, results)):
         bad = None
         for k, (m, o) in enumerate(zip(c["h"], r["steps"])):
@@ -79,7 +81,7 @@ def main():
             ctx.violation({"case": key, **bad}, note="fields / graph differ from the closure of the asserted facts")
         traces[c["model"]].append({"name": f"t{i}", "ev": r["events"]})
     # code -> spec: every recorded relation event is a step of the declared semantics, closed at quiescence
-    for model in ("univ", "family"):
+    for model in ("univ", "family", "geo"):
         v = validate_traces(ctx, "Ontology_Trace", f"Ontology_Trace_{model}.cfg", traces[model])
         ctx.traces += len(traces[model])
         for name, vv in v.items():
